@@ -2,6 +2,6 @@
 (set-logic ALL)
 (declare-const perm_Wallet1_acc1 Bool)
 (assert perm_Wallet1_acc1)
-(define-fun t53 () Bool (not perm_Wallet1_acc1))
-(assert t53)
+(define-fun t460 () Bool (not perm_Wallet1_acc1))
+(assert t460)
 (check-sat)
